@@ -164,8 +164,9 @@ def _merge(ctx, stats, st, fs, dv, findings, plan, mode):
         f.setdefault("mode", mode)
         findings.append(f)
     for what, c in dv.items():
-        ctx.divergence(what, {"plan": plan["name"]})
-        ctx.bump("divergence:" + what, c - 1)
+        if "divergence:" + what not in ctx.notes:
+            ctx.divergence(what, {"first_seen_in_plan": plan["name"]})
+        ctx.bump("divergence:" + what, c)
 
 
 # ---------------------------------------------------------------------------------------------
@@ -254,29 +255,16 @@ def selftests(ctx, base, lines):
         raise RuntimeError(f"self-test: op returning self not flagged: {classes(rp)}")
     n += 1
 
-    # (i-c) the second bind shares the binding dict of its receiver's parent: a sibling is influenced
+    # (i-c) the second bind also writes into the FIRST object (not its receiver): a sibling is influenced
     def bind_leak(cat, op, recv, k):
         new = R.api_apply(cat, op, recv, k)
         if op["op"] == "bind" and op["tgt"] == 2:
-            leak.objs[0]._bound[op["arg"][0]] = "bv%d" % k
-            leak.objs[0].__dict__.pop("inputs", None)
+            first = rp.pool.objs[0]
+            first._bound[op["arg"][0]] = "bv%d" % k
+            first.__dict__.pop("inputs", None)
         return new
     rp = R.Replayer("g0", base, apply=bind_leak)
-
-    class _Leak:
-        objs = None
-    leak = _Leak()
-    orig_pool = R.Pool
-
-    class SpyPool(orig_pool):
-        def __init__(self, *a, **k):
-            super().__init__(*a, **k)
-            leak.objs = self.objs
-    R.Pool = SpyPool
-    try:
-        rp.linear(h2, o2)
-    finally:
-        R.Pool = orig_pool
+    rp.linear(h2, o2)
     if "sibling-influenced:bind" not in classes(rp):
         raise RuntimeError(f"self-test: leak into a non-receiver not flagged: {classes(rp)}")
     n += 1
